@@ -261,7 +261,71 @@ print(json.dumps(out))
 '''
 
 
+# identifiers that are legal in a spec, are not Python reserved words, and collide with something the generated module uses
+HAZARD_FIELDS = ['self', 'cls', 'type', 'id', 'property', 'object', 'bb', 'bv', 'validator', 'x_', '_x', '_tag', '_value', 'is_x', 'get_x', 'tag', 'value',
+                 'dict', 'str', 'int', 'print', 'exec', 'match', 'case', 'datetime', 'warnings', 'other_', 'field', 'default']
+HAZARD_TYPES = ['Exception', 'Object', 'Dict', 'Type', 'Bb', 'Bv', 'Struct', 'Union', 'Route', 'Text', 'Validator', 'Attribute', 'Datetime', 'Ss']
+HAZARD_NAMESPACES = ['bb', 'bv', 'stone_base', 'typing', 'datetime', 'sys', 'json', 're', 'warnings', 'base', 'ns1', 'a_b']
+
+
+def hazard_task(pos, name):
+    if pos == 'field':
+        specs = [('a.stone', 'namespace a\n\nstruct S\n    %s Int32\n    x Int32 = 2\n\nunion U\n    %s\n    t2 S\n\nstruct C extends S\n    y %s?\n' % (name, name, 'U'))]
+    elif pos == 'type':
+        specs = [('a.stone', 'namespace a\n\nstruct %s\n    f Int32\n\nstruct T extends %s\n    g %s?\n\nunion Uu\n    t %s\n\nalias Al = %s\n\nroute r(%s, Void, Void)\n' % ((name,) * 6))]
+    else:
+        specs = [('x.stone', 'namespace %s\n\nstruct S\n    f Timestamp("%%Y") = "2000"\n\nunion U\n    a\n    b S\n' % name),
+                 ('y.stone', 'namespace zz\n\nimport %s\n\nstruct T\n    g %s.S\n    h %s.U = a\n\nroute r(%s.S, T, Void)\n' % ((name,) * 4))]
+    inputs = {'specs': specs, 'position': pos, 'name': name}
+    out = impl.compile_specs(specs)
+    if out.kind != 'ok':
+        # the compiler may refuse a name (for instance one that clashes with a built-in type): not a matter for this property
+        return {'outcome': 'hazard:not-accepted', 'viol': [], 'n': 1}
+    pkg, fail = impl.build_python_package(out.api)
+    if pkg is None:
+        return {'outcome': 'hazard:generate-failed', 'viol': [viol('hazard-name:%s:%s:generate' % (pos, name), 'python_types fails for %s named %s: %s' % (pos, name, fail.identity), inputs, fail.tb)], 'n': 1}
+    try:
+        try:
+            mods = {n: pkg.mod(n) for n in out.api.namespaces}
+            if pos == 'field':
+                m = mods['a']
+                arg = [a for a in m.S.__init__.__code__.co_varnames[1:3]][0]
+                s1 = m.S(**{arg: 1})
+                enc = pkg.ss.json_compat_obj_encode(m.S_validator, s1)
+                if enc != {name: 1}:
+                    return {'outcome': 'hazard:differs', 'viol': [viol('hazard-name:field:%s:encode' % name, 'struct with a field named %s encodes as %r' % (name, enc), inputs)], 'n': 1}
+                dec = pkg.ss.json_compat_obj_decode(m.S_validator, {name: 1, 'x': 3})
+                if dec != m.S(**{arg: 1, 'x': 3}):
+                    return {'outcome': 'hazard:differs', 'viol': [viol('hazard-name:field:%s:decode' % name, 'struct with a field named %s does not round-trip' % name, inputs)], 'n': 1}
+                c = m.C(**{arg: 1})
+                if pkg.ss.json_compat_obj_encode(m.C_validator, c) != {name: 1}:
+                    return {'outcome': 'hazard:differs', 'viol': [viol('hazard-name:field:%s:subclass' % name, 'subclass of a struct with a field named %s misbehaves' % name, inputs)], 'n': 1}
+                u = pkg.ss.json_compat_obj_decode(m.U_validator, {'.tag': name})
+                if pkg.ss.json_compat_obj_encode(m.U_validator, u) not in ({'.tag': name}, name):
+                    return {'outcome': 'hazard:differs', 'viol': [viol('hazard-name:tag:%s' % name, 'union with a tag named %s does not round-trip' % name, inputs)], 'n': 1}
+            elif pos == 'type':
+                m = mods['a']
+                from stone.backends.python_helpers import fmt_class
+                cls = getattr(m, fmt_class(name))
+                t = m.T(f=1)
+                if not isinstance(t, cls) or pkg.ss.json_compat_obj_encode(m.T_validator, t) != {'f': 1}:
+                    return {'outcome': 'hazard:differs', 'viol': [viol('hazard-name:type:%s:use' % name, 'struct named %s misbehaves' % name, inputs)], 'n': 1}
+            else:
+                t = mods['zz'].T(g=mods[name].S())
+                enc = pkg.ss.json_compat_obj_encode(mods['zz'].T_validator, t)
+                if enc != {'g': {}}:
+                    return {'outcome': 'hazard:differs', 'viol': [viol('hazard-name:namespace:%s:use' % name, 'namespace named %s: encoding is %r' % (name, enc), inputs)], 'n': 1}
+        except Exception as e:  # noqa
+            return {'outcome': 'hazard:raised', 'viol': [viol('hazard-name:%s:%s:%s' % (pos, name, type(e).__name__), 'python_types output for %s named %s: %s: %s' % (pos, name, type(e).__name__, str(e)[:200]),
+                                                                   inputs)], 'n': 1}
+    finally:
+        pkg.close()
+    return {'outcome': 'hazard:same', 'viol': [], 'n': 1}
+
+
 def task(item):
+    if item[0] == 'hazard':
+        return hazard_task(item[1], item[2])
     model, trace, pname, flags, depth = item
     specs = render.render(model)
     out = impl.compile_specs(specs)
@@ -315,7 +379,9 @@ def run(tier, seed):
     r.bounds['fresh_interpreter_for_multi_namespace_models_up_to_depth'] = SUBPROC_DEPTH[0]
     for s, tr, pn, fl, d in states[:1] + states[len(states) // 2:len(states) // 2 + 1]:
         r.sample({'profile': pn, 'trace': list(tr), 'specs': render.render(s)})
-    r.run_tasks(task, states, budget=300, chunksize=8)
+    hazards = [('hazard', 'field', n) for n in HAZARD_FIELDS] + [('hazard', 'type', n) for n in HAZARD_TYPES] + [('hazard', 'namespace', n) for n in HAZARD_NAMESPACES]
+    r.bounds['hazard_identifiers'] = len(hazards)
+    r.run_tasks(task, list(states) + hazards, budget=300, chunksize=8)
     r.assumptions = ['identifiers of the explored models are already in the case style of the generated names (name styles: see DESIGN)',
                      'representation of tag-reference and timestamp route attributes in generated code is not judged']
     r.finish('every model of every family-pair profile x every namespace as first import: python_types output imported (fresh package in-process; '
